@@ -117,6 +117,22 @@ def family(manifest):
             out.append("  case CLS_%s: return %s_%s(d);" % (c, o, m))
             dispatch[m][c] = o
         out.append('  default: __CPROVER_assert(0, "pure virtual call / unknown directive class"); return 0; } }')
+    # supporting static facts behind WF(): what the constructors establish for the fields the layout pass reads before it
+    # writes them (checked textually on every constructor's initialiser list)
+    ctor_facts = {}
+    for c, must in (("Directive", ["byteOffset(0)", "assembled(false)"]), ("Label", ["labelValue(0)"]), ("InstrLabel", ["labelValue(0)", "length(1)"])):
+        m = re.search(r"class %s\b[^{;]*\{" % c, ns)
+        cb = ns[m.end() - 1:match_close(ns, m.end() - 1) + 1]
+        ctors = re.findall(r"\b%s\(([^)]*)\)\s*:\s*([^{]*)\{" % c, cb)
+        if not ctors:
+            raise ExtractionError("class %s: no constructor with an initialiser list found" % c)
+        for args, inits in ctors:
+            flat = "".join(inits.split())
+            for item in must:
+                if item not in flat:
+                    raise ExtractionError("class %s: constructor (%s) does not establish %s (well-formedness assumption WF() of the layout proof)" % (c, args.strip(), item))
+        ctor_facts[c] = {"constructors": len(ctors), "establishes": must}
+    manifest.append({"unit": "Directive constructors (static facts for WF)", "facts": ctor_facts})
     manifest.append({"unit": "Directive family", "classes": {c: {"base": info[c]["base"], "fields": [n for _, n in info[c]["fields"]],
                                                                  "methods": sorted(m for m in info[c]["meths"] if m in WANT)} for c in CLASSES},
                      "virtual_dispatch": dispatch,
